@@ -641,6 +641,10 @@ fn run_probe(e: &mut Emitter, r: &mut Rng, s: &Shape, label: &str) {
             let got = if got.is_empty() { "PANIC".to_string() } else { got };
             trace(e.n - 1, &format!("probe [{label}]"), &got);
             e.count(&format!("probe [{label}]: honest proof => {got}"));
+            // blinding is part of the property's quantifier: an honest batched opening proof must be accepted
+            if label == "hiding" && got != "ACCEPT" {
+                e.oracle_failures.push(format!("F-C05-1: honest BATCH FRI opening proof with hiding/blinding is not accepted ({got}): {}", s.describe(&params.reduction_arity_bits)));
+            }
         }
     }
 }
